@@ -264,3 +264,12 @@ impl RawBoard {
         self.pieces[piece] ^= diff;
     }
 }
+
+#[cfg(rustyyato_chess_verif)]
+impl RawBoard {
+    /// verification hook: a raw board from its eight bitboards (no validation)
+    #[inline]
+    pub const fn verif_from_parts(colors: [BitBoard; 2], pieces: [BitBoard; 6]) -> Self {
+        Self { colors, pieces }
+    }
+}
